@@ -1,5 +1,6 @@
 #include <nano/solver/bundle.h>
 #include <nano/solver/csearch.h>
+#include <nano/verif.h>
 
 using namespace nano;
 
@@ -70,6 +71,7 @@ const csearch_t::point_t& csearch_t::search(bundle_t& bundle, const scalar_t miu
         const auto  delta = bundle.delta(miu / t);
         const auto  econv = bundle.econverged(epsilon);
         const auto  sconv = bundle.sconverged(epsilon);
+        NANO_VERIF_TRACE("csearch.iter", miu, t, epsilon, fx, fy, e, s.lpNorm<2>(), delta, econv, sconv, x, y, gy, vector_t{s});
 
         logger.info("[csearch]: calls=", m_function.fcalls(), "|", m_function.gcalls(), ",fx=", fx, ",fy=", fy,
                     ",de=", e, ",ds=", s.lpNorm<2>(), ",dd=", delta, ",bsize=", bundle.size(), ",miu=", miu, ",t=", t,
@@ -120,6 +122,7 @@ const csearch_t::point_t& csearch_t::search(bundle_t& bundle, const scalar_t miu
         }
     }
 
+    NANO_VERIF_TRACE("csearch.end", m_point.m_status, m_point.m_t, m_point.m_fy);
     logger.info("[csearch]: calls=", m_function.fcalls(), "|", m_function.gcalls(), ",fy=", m_point.m_fy,
                 ",t=", m_point.m_t, ",status=", m_point.m_status, "\n");
 
